@@ -348,7 +348,10 @@ type hstep struct {
 
 var kindSQL = map[string][]string{
 	"select": {"SELECT a, b FROM t JOIN u ON t.a = u.a WHERE a = 1 AND b IN (1, 2) GROUP BY a HAVING COUNT(*) > 1 ORDER BY a DESC LIMIT 5",
-		"SELECT DISTINCT x.c, f(y) FROM x WHERE c BETWEEN 1 AND 2 OR c IS NULL"},
+		"SELECT DISTINCT x.c, f(y) FROM x WHERE c BETWEEN 1 AND 2 OR c IS NULL",
+		// sub-selects in every kind of position (one tree reaches a derived table through FROM and through the join's copy of its left side)
+		"SELECT x.a, (SELECT MAX(b) FROM w) FROM t, (SELECT a FROM s WHERE a IN (SELECT b FROM w)) x JOIN u ON u.a = x.a",
+		"SELECT a FROM (SELECT a FROM s) x JOIN (SELECT b FROM w) y ON x.a = y.b UNION SELECT c FROM (SELECT c FROM v) z"},
 	"insert": {"INSERT INTO t (a, b) VALUES (1, 'x'), (2, 'y')", "UPDATE t SET a = 1, b = a + 2 WHERE c = 3"},
 	"tuple":  {"SELECT a FROM t WHERE (a, b) IN ((1, 2), (3, 4))", "SELECT ARRAY[1, 2, 3], (x, y) FROM t"},
 }
@@ -412,6 +415,7 @@ func replayAll(cases []string, k, n int) {
 
 func replay(hist []hstep, idx int) {
 	slots := map[string]*holding{}
+	drawn := map[uintptr]string{} // nodes the clients of this history drew from the pools and keep
 	overlap := false
 	fail := func(i int, sig, clause string, obs, exp any) {
 		run.Violate(core.Violation{Sig: sig, Clause: clause, Case: map[string]any{"kind": "history", "history": hist[:i+1]}, Observe: obs, Expect: exp})
@@ -453,14 +457,24 @@ func replay(hist []hstep, idx int) {
 				overlap = true
 			}
 			for _, e := range registry {
-				obj := e.Get()
-				rv := reflect.ValueOf(obj).Elem()
-				for f := 0; f < rv.NumField(); f++ {
-					if rv.Type().Field(f).IsExported() {
-						populate(rv.Field(f), 1)
+				// two of each type; the client keeps them (they are never put back), so no later draw may hand out
+				// one of them again: a node put into its pool twice is handed to two holders (NoAliasing)
+				for k := 0; k < 2; k++ {
+					obj := e.Get()
+					rv := reflect.ValueOf(obj).Elem()
+					if rv.Type().Size() > 0 {
+						ptr := reflect.ValueOf(obj).Pointer()
+						if _, again := drawn[ptr]; again {
+							fail(i, "pool-hands-out-a-held-node|"+rv.Type().Name(), "every node obtained from the node pools is indistinguishable from a freshly constructed one (and is nobody else's)", "the same "+rv.Type().Name()+" was handed out twice while the first holder keeps it", nil)
+						}
+						drawn[ptr] = rv.Type().Name()
+					}
+					for f := 0; f < rv.NumField(); f++ {
+						if rv.Type().Field(f).IsExported() {
+							populate(rv.Field(f), 1)
+						}
 					}
 				}
-				// the client keeps the node: it is never put back
 			}
 		case "parsecancel":
 			// a context that reports cancellation from its n-th poll on; n rotates so that every poll point of the
